@@ -213,7 +213,8 @@ PROPS = {
                    "Config::verify: the 16-bit header codec is a bijection on valid (frame kind, stream kind, id) triples (bit-vector lemmas) "
                    "and frame_kind() has FOUR values all of which the dispatcher handles; an inbound frame is delivered to exactly the "
                    "stream its header names on the side opposite to the sender's, or the run ends with a protocol error if the id is out of "
-                   "range; every delivered frame owns 1 frame-count permit and a DATA frame owns as many buffer-size permits as it has bytes, "
+                   "range; every delivered frame owns 1 frame-count permit and a DATA frame owns as many buffer-size permits as it has bytes, and a receive "
+                   "buffer is allocated (and filled from the transport) only for bytes whose size permits are already held (ghost count), "
                    "acquired before its buffer is allocated; DATA is split into pieces of min(remaining, read_frame_size) that exhaust the "
                    "announced length (no underflow); read_exact only appends, in order, exactly the bytes it removes from the frames and never "
                    "panics given what the dispatcher can deliver; a new transient stream starts from a clean state (no cached bytes, CLOSE "
@@ -346,9 +347,9 @@ PROPS = {
                    "leader_weighted_eligibility (called with a message's view before its justification is verified: total for every view, frequency and weight), the selection function "
                    "and the four replica handlers before and after verification. Allocation in process_inbound_frames happens only after "
                    "the size permits are held; GenesisRaw::read / build: what decodes has the protocol version build() handles, so Genesis::read "
-                   "(which re-encodes to compute the hash) never reaches unreachable!(). Kani (complete, loop-free) on the real protobuf crate: "
+                   "(which re-encodes to compute the hash) never reaches unreachable!(); canonical_raw / read_fields total for every byte string (F8). Kani (complete, loop-free) on the real protobuf crate: "
                    "Duration/Timestamp decoding is total, every decodable Duration is re-encoded without overflow (F7), Duration and SocketAddr round-trip.",
-        level_note="Not covered, and said so: prost decoding, quick_protobuf in canonical_raw, snow and tokio internals, the RPC service loop, "
+        level_note="Not covered, and said so: prost decoding, quick_protobuf's primitives, snow and tokio internals, the RPC service loop, "
                    "preface, Utc's Display/Debug "
                    "(panic for out-of-range timestamps; only the optional debug page formats stored announcements). 'Never buffers more than its limits' is the permit accounting of C14 only.",
         technique="contract-based deductive verification (Verus panic-freedom obligations on extracted real functions) + Kani complete harnesses on real leaf decoders",
@@ -360,7 +361,13 @@ PROPS = {
         kani=["std_conv", "phase"],
         kani_quick=True,
         level="proof",
-        level_text="CONVERSION LAYER ONLY (value <-> prost message; sentence 1 of the statement at that layer). Verus, unit conv: the prost "
+        level_text="CONVERSION LAYER (value <-> prost message; sentence 1) AND CANONICAL RE-ENCODING (sentences 2-3, unit canonical: the real text of "
+                   "proto_fmt.rs Wire::{from_tag,raw,from}, Reader::{new,read,read_field}, read_fields, canonical_raw: for EVERY byte string and descriptor "
+                   "canonical_raw terminates without panic and, when it accepts, returns canon(desc, buf) - a total spec FUNCTION of the parsed field map: "
+                   "fields in ascending number order, an empty repeated field omitted, several scalars as ONE packed TLV, one scalar under its own wire "
+                   "type, strings / bytes / sub-messages one TLV per value, sub-messages canonicalised recursively; read_fields accepts only known, "
+                   "non-map fields with the declared or the packed wire type. Being a function of the field map, the result does not depend on the order "
+                   "in which different fields appeared or on packing). Verus, unit conv: the prost "
                    "message types are generated mechanically from /repo's .proto files on every run; the trait ProtoFmt carries the round-trip "
                    "contract (build ensures p == enc(self); read ensures forall x. enc(x) == *r ==> result == Ok(x)) and every `impl ProtoFmt` "
                    "block copied from /repo must satisfy it, so read(build(x)) == Ok(x) for EVERY value, and build is a function of the value: "
@@ -375,8 +382,10 @@ PROPS = {
                    "trait ProtoRepr, which carries the same contract; BlockStoreState / Last / Transaction), and the generic helpers required / read_required / read_optional. Kani (complete harnesses on the real "
                    "crates, concrete counterexamples): Duration (EVERY decodable value, after fix F7), SocketAddr (all addresses and ports), Phase, "
                    "View, ReplicaCommit round-trip; Duration/Timestamp decoding total.",
-        level_note="NOT decided: the protobuf wire layer (prost, quick_protobuf, the reflection-driven canonical_raw, the build-time schema "
-                   "check) -- sentences 2 and 3 of the statement stay with the existing tests. Assumed leaves (A3/A2): ByteFmt of keccak digests, "
+        level_note="NOT decided: prost's own encoder / decoder and the build-time schema check; quick_protobuf's reader / writer primitives are "
+                   "assumed as documented (a successful read consumes input, a length-delimited value is shorter than what was consumed, writes to a "
+                   "Vec cannot fail; varint / fixed encodings are uninterpreted); the parse result of read_fields is NAMED (spec_fields / spec_keys), "
+                   "not re-specified byte by byte, so 'hashes computed by different nodes agree' is decided up to the assumed primitives. Assumed leaves (A3/A2): ByteFmt of keccak digests, "
                    "ProtoFmt of PublicKey/Signature/AggregateSignature (blst), of bit_vec::BitVec (from_bytes/to_bytes/truncate), of SocketAddr and "
                    "Utc inside the Verus unit (SocketAddr is decided by Kani). Schedule / GenesisRaw decode through Schedule::new (validation + "
                    "sort) and are not under the full round-trip contract (it holds only for values satisfying the type's invariant); for them a "
@@ -402,7 +411,8 @@ PROPS = {
                    "n was the LOWEST key of a queue content it observed, THIS peer's announcement channel held a state containing n "
                    "(BlockStoreState::contains, under contract in unit blockstore), and the entry was removed from the shared queue by this very "
                    "call in the critical section that read it (one holder at a time); acceptors are woken whenever the lowest requested block "
-                   "changes; the per-call task signals completion only after a block with the REQUESTED number was accepted by queue_block.",
+                   "changes; the per-call task signals completion only after a block with the REQUESTED number was accepted by queue_block, and "
+                   "performs the RPC under the configured get_block timeout (so a peer that never answers is timed out and the request returns to the queue).",
         level_note="Not decided (A4): interleavings between requester, acceptors and per-call tasks (the spawned wait task is verified as a "
                    "function and composed in line, R-spawn), oneshot drop semantics (a dropped sender wakes the requester with Disconnected), "
                    "the fetcher task run_block_fetcher (one request per missing number, cancelled once queued). watch::send_if_modified runs "
@@ -426,7 +436,8 @@ PROPS = {
                    "before returning Err, and runs the routine only while the panic reporter is armed (an armed reporter that is dropped reports "
                    "a panic); Scope::run / run_blocking read the recorded failure only AFTER the terminate signal was received (precondition of "
                    "take_err, from the debug_assert), return the root task's result iff nothing was recorded, the recorded error otherwise, "
-                   "and re-raise only a recorded panic.",
+                   "and re-raise only a recorded panic; Scope::{spawn, spawn_bg, spawn_blocking, spawn_bg_blocking, main_task, bg_task}: a main task "
+                   "holds the cancel guard (the context stays active while it runs) unless all main tasks are gone, a background task never does.",
         level_note="Not decided (A4): that the terminate signal implies every task has finished (each task owns a guard through an Arc; "
                    "reference counts and drop order are not modelled), unwinding itself (a panic inside a routine is represented only by the "
                    "armed reporter's Drop), the Weak upgrade in main_task/bg_task, propagation of cancellation to child contexts (ctx/mod.rs) "
